@@ -448,10 +448,10 @@ class OrderedHashWriter(HashWriter):
         # Keep an array of the positions of all keys
         self.index = GrowableArray("H")
         # Keep track of the last key added
-        self.lastkey = emptybytes
+        self.lastkey = None
 
     def add(self, key, value):
-        if key <= self.lastkey:
+        if self.lastkey is not None and key <= self.lastkey:
             raise ValueError("Keys must increase: %r..%r"
                              % (self.lastkey, key))
         self.index.append(self.dbfile.tell())
@@ -580,17 +580,17 @@ class FieldedOrderedHashWriter(HashWriter):
         self.fieldmap = self.extras["fieldmap"] = {}
 
         # Keep track of the last key added
-        self.lastkey = emptybytes
+        self.lastkey = None
 
     def start_field(self, fieldname):
         self.fieldstart = self.dbfile.tell()
         self.fieldname = fieldname
         # Keep an array of the positions of all keys
         self.poses = GrowableArray("H")
-        self.lastkey = emptybytes
+        self.lastkey = None
 
     def add(self, key, value):
-        if key <= self.lastkey:
+        if self.lastkey is not None and key <= self.lastkey:
             raise ValueError("Keys must increase: %r..%r"
                              % (self.lastkey, key))
         self.poses.append(self.dbfile.tell() - self.fieldstart)
